@@ -16,6 +16,11 @@ fn main() -> Result<(), String> {
             ui::terminal::run_file(&filename)
         },
         Some("--gui")  => ui::gui::run(),
+        #[cfg(picilisp_verif)]
+        Some("--verif-driver") => {
+            verif_driver::main(args.next().and_then(|n| n.parse().ok()));
+            Ok(())
+        },
         Some("--help") => {
             println!("{}", usage());
             Ok(())
@@ -45,3 +50,6 @@ mod config;
 mod ui;
 mod io;
 mod debug;
+
+#[cfg(picilisp_verif)]
+mod verif_driver;
